@@ -36,7 +36,27 @@ def bind():
     URL = _y.URL
     _url_mod = _url
     _parse_mod = _parse
+    _discover_lrus()
     return _y
+
+
+def _discover_lrus():
+    """Every functools.lru_cache wrapper bound in a module of the (staged) yarl package: the cache-size
+    knob and the cache faults follow refactorings that add, merge or rename caches."""
+    import sys as _sys
+
+    found = []
+    seen = set()
+    for modname in sorted(m for m in _sys.modules if m == "yarl" or m.startswith("yarl.")):
+        mod = _sys.modules[modname]
+        short = modname.rpartition(".")[2]
+        for attr in sorted(vars(mod)):
+            f = vars(mod)[attr]
+            if hasattr(f, "cache_info") and hasattr(f, "cache_clear") and hasattr(f, "__wrapped__") and id(f) not in seen:
+                seen.add(id(f))
+                found.append((short, attr))
+    if found:
+        INTERNAL_LRUS[:] = found
 
 
 # --------------------------------------------------------------------------------------
@@ -395,7 +415,13 @@ def deep_diff(a, b, path=""):
 # --------------------------------------------------------------------------------------
 
 def _mods():
-    return {"_url": _url_mod, "_parse": _parse_mod}
+    import sys as _sys
+
+    out = {"_url": _url_mod, "_parse": _parse_mod}
+    for modname, mod in list(_sys.modules.items()):
+        if modname.startswith("yarl."):
+            out.setdefault(modname.rpartition(".")[2], mod)
+    return out
 
 
 def lru_present():
@@ -412,6 +438,8 @@ def lru_resize(modname, name, size):
     import functools
 
     mods = _mods()
+    if modname not in mods:
+        return False
     f = getattr(mods[modname], name, None)
     if f is None or not hasattr(f, "__wrapped__") or not hasattr(f, "cache_info"):
         return False
@@ -426,6 +454,8 @@ def lru_resize(modname, name, size):
 
 
 def lru_clear(modname, name):
+    if modname not in _mods():
+        return False
     f = getattr(_mods()[modname], name, None)
     if f is None or not hasattr(f, "cache_clear"):
         return False
@@ -435,8 +465,9 @@ def lru_clear(modname, name):
 
 def lru_info_all():
     out = {}
+    mods = _mods()
     for m, n in INTERNAL_LRUS:
-        f = getattr(_mods()[m], n, None)
+        f = getattr(mods.get(m), n, None)
         if f is not None and hasattr(f, "cache_info"):
             ci = f.cache_info()
             out[n] = (ci.hits, ci.misses, ci.maxsize, ci.currsize)
